@@ -144,20 +144,28 @@ func (w *WorkerPool) WorkerCount() int {
 
 // Shutdown shuts down the WorkerPool.
 func (w *WorkerPool) Shutdown() *WorkerPool {
+	if w.shutdown() {
+		// signal the dispatcher without holding the mutex (its wait condition acquires the read lock)
+		w.Queue.SignalShutdown()
+	}
+
+	return w
+}
+
+// shutdown marks the WorkerPool as stopped and signals the workers (returns true if the WorkerPool was running).
+func (w *WorkerPool) shutdown() (wasRunning bool) {
 	w.mutex.Lock()
 	defer w.mutex.Unlock()
 
-	if w.isRunning {
+	if wasRunning = w.isRunning; wasRunning {
 		w.isRunning = false
 
 		for range w.workerCount {
 			w.shutdownSignal <- struct{}{}
 		}
-
-		w.Queue.SignalShutdown()
 	}
 
-	return w
+	return wasRunning
 }
 
 // increasePendingTasks increases the number of pending tasks.
